@@ -20,10 +20,21 @@ PROP = {'streams': [('c19', 2000, 100000), ('c19h', 500, 20000), ('c19cli', 200,
               'stateful_calls_change_nothing',
               'exit_code_table',
               'authorize_exit_reflects_response',
-              'validate_exit_table'],
- 'assumptions': ['the theorems are about the cache/lookup layer with the two document parsers and the common authorization tail as opaque '
-                 'parameters; agreement of input assembly (policy-id assignment, template links, schema-directed parsing, request validation, '
+              'validate_exit_table',
+              'assemble_eq_api_history',
+              'assemble_ok_iff',
+              'assemble_inv',
+              'assemble_authorize',
+              'assemble_ids',
+              'assemble_ids_collision'],
+ 'assumptions': ['the cache theorems are about the cache/lookup layer with the two document parsers and the common authorization tail as opaque '
+                 'parameters; agreement of the rest of input assembly (schema-directed parsing, request validation, '
                  'validation error ids, formatting, conversions) with the Rust API is checked by the differential run only',
+                 'policy-set assembly (assemble_*): documents enter the model as the parser\'s verdict (Option body / Option template / Option '
+                 'item list / Option slot values): the text and EST parsers (C05), their honouring of the id argument, Template::parse refusing '
+                 'slot-less policies (hypothesis TemplatesHaveSlots of assemble_inv / assemble_ids) and serde\'s JSON decoding are trusted; '
+                 'HashMap iteration order is a parameter (the theorems hold for every order); for a concatenated text the model adds the '
+                 'numbered static policies with the API add (from_str uses the core add_static: equal on these sets by C08 api_add_is_add_static)',
                  'cedar-wasm glue (wasm-bindgen/tsify wrappers) is not executable here; the Rust functions it wraps are what is run',
                  'the caches are thread-local: histories are single-threaded, one fresh name prefix per history'],
  'trusted': ["/repo's cedar-policy-cli built with default features (no partial-eval/tpe: exit code 4 'Unknown' is in the table but not exercised)"]}
@@ -33,8 +44,13 @@ TEXT = ("Lean theorems over the mirror of the FFI's stateful layer (two name->pa
  'tail as arbitrary parameters: cache_refines_latest (after any call history a stateful call answers what the stateless call answers on the latest '
  "successfully registered documents; induction over the history against a 'last acknowledged write' spec), every_reply_refines_latest, "
  'failed_preparse_changes_nothing, reregistration_overwrites, stateful_calls_change_nothing, and the CLI exit-code table (exit_code_table, '
- 'authorize_exit_reflects_response, validate_exit_table). That the FFI and the CLI assemble their inputs as the Rust API does (decision, determining '
- 'policies, erroring ids, validation error ids, converted documents, in every input shape) is NOT a model theorem: it is checked by the differential '
- 'run only (ffi vs API, stateful vs stateless, cedar binary vs API), and cache histories are diffed against the model.',
- 'proof covers the cache/lookup refinement and the exit-code table only; input assembly vs the API is sampled differential testing '
+ 'authorize_exit_reflects_response, validate_exit_table). Policy-set assembly IS a model theorem: Cedar/FfiPolicies.lean mirrors '
+ 'ffi::PolicySet::parse (static policies as one text | list | map, templates, template links; which errors are collected and which abort) on top of '
+ 'the C08 model of cedar_policy::PolicySet, and assemble_eq_api_history / assemble_ok_iff prove it equals the explicit API history add* ++ '
+ 'add_template* ++ link* from the empty set with the assigned ids (policy{n} by position | default id | map key), succeeding iff every document parses '
+ 'and every call succeeds, with the exact error list otherwise; assemble_inv (C08 invariants), assemble_ids / assemble_ids_collision (ids exactly the '
+ 'assigned ones, every collision reported), assemble_authorize. That the FFI and the CLI assemble their OTHER inputs as the Rust API does (decision, '
+ 'determining policies, erroring ids, validation error ids, converted documents, in every input shape) is not a model theorem: it is checked by the '
+ 'differential run only (ffi vs API, stateful vs stateless, cedar binary vs API), and cache histories are diffed against the model.',
+ 'proof covers the cache/lookup refinement, the exit-code table and policy-set assembly (parsers trusted); the rest of input assembly vs the API is sampled differential testing '
  '(harness/src/c19.rs); cedar-wasm glue not executable here; CLI built with default features')
